@@ -5,7 +5,7 @@ class Check(MacroCheck):
     theorems = ['C05_eval_params_in_order', 'C05_answer_args_in_order', 'C05_polonius_rebinding_is_identity',
                 'C05_arm_patterns_keep_positions', 'C05_inputs_types_in_order', 'C05_impossible_only_where_documented',
                 'C05_async_body_is_lazy', 'C05_delegator_forwards_in_order', 'C05_answer_fn_signature', 'C05_generic_mockfn']
-    case_prefixes = ('ref.m', 'mut.m', 'own.m2', 'own.default.original', 'own.default.byvalue', 'rc.m2', 'arc.m2', 'pin.m2', 'async.a2', 'async.f2', 'generic.')
+    case_prefixes = ('ref.m', 'mut.m', 'own.m2', 'own.default.original', 'own.default.byvalue', 'rc.m2', 'arc.m2', 'pin.m2', 'async.a', 'async.f2', 'generic.', 'sel.zero')
     facts_of_interest = r'(eval |call answer|rebind|exit |arm |inputs=|asyncwrap|surrogate|polonius)'
 
     def rule(self):
